@@ -425,6 +425,26 @@ def eval_mutations(row):
         except Exception as e:
             r = 'EXC:%s' % type(e).__name__
         res.append(('parameter-order-%s' % '-'.join(k[:4] for k in perm), {'spX': r}, [] if r is True else ['unchanged-signed-query-does-not-verify']))
+    # a query signed with the requester's real key over a string that names an identifier outside the supported set
+    # (other namespace, fragment only, other letter case, trailing blank): never verifies
+    from cryptography.hazmat.primitives.asymmetric import padding as _pad
+    from cryptography.hazmat.primitives import hashes as _h
+    frag = {'rsa-sha1': _h.SHA1, 'rsa-sha224': _h.SHA224, 'rsa-sha256': _h.SHA256, 'rsa-sha384': _h.SHA384, 'rsa-sha512': _h.SHA512}
+    for bad_alg in ('http://www.w3.org/2000/09/xmldsig#rsa-sha256', 'urn:example:not-an-algorithm#rsa-sha1', 'rsa-sha1', '#rsa-sha224',
+                    'HTTP://WWW.W3.ORG/2001/04/XMLDSIG-MORE#RSA-SHA256', 'http://www.w3.org/2001/04/xmldsig-more#rsa-sha256 ',
+                    'http://www.w3.org/2001/04/xmldsig-more#rsa-sha512#rsa-sha512'):
+        d = {k: v for k, v in base.items() if k != 'Signature'}
+        d['SigAlg'] = bad_alg
+        typ = 'SAMLRequest' if 'SAMLRequest' in d else 'SAMLResponse'
+        octets = '&'.join(urlencode({k: d[k]}) for k in (typ, 'RelayState', 'SigAlg') if k in d).encode('ascii')
+        hcls = frag.get(bad_alg.strip().rsplit('#', 1)[-1].lower(), _h.SHA256)
+        d['Signature'] = base64.b64encode(world.priv('spX').sign(octets, _pad.PKCS1v15(), hcls())).decode()
+        try:
+            r = verify_redirect_signature(dict(d), ents['e2'].sec.sec_backend, world.cert_b64('spX'))
+            r = bool(r) if r is not None else None
+        except Exception as e:
+            r = 'EXC:%s' % type(e).__name__
+        res.append(('signed-over-unsupported-identifier-%r' % bad_alg, {'spX': r}, ['unsupported-algorithm-verifies'] if r is True else []))
     # candidate certificates that are no certificates, checked by the very entity that signed (its own key must never
     # stand in for the one it was asked to check against)
     good = world.cert_b64('spX')
